@@ -497,3 +497,67 @@ Theorem C05_equality_exclusion_matches_source : forall b, biok_full b = negb (sr
 Proof. destruct b; reflexivity. Qed.
 Check C05_equality_exclusion_matches_source : forall b, biok_full b = negb (src_applies_equals b).
 Print Assumptions C05_equality_exclusion_matches_source.
+(* ---- F54 repaired (known/C05.json): input references ----
+   `#field` is `inputs.field`.  Repaired code: the free-variable scan counts it as a use of `inputs` (so the
+   Lambda arm captures `inputs`), and emission prints it the way it prints `inputs.field`, with the captured
+   `inputs` inlined.  The emitted form evaluates in EVERY configuration — whatever inputs the loading program
+   has — to what `#field` gave where `inputs` was the captured value (lit_roundtrip does the work). *)
+Require Import Blots.proofs.EmitInRef.
+Theorem C05_input_reference_emission : forall release binop_impl apply n d sc f v c0 c,
+  rec_get sc "inputs"%string = Some v -> emittable_gen v = true ->
+  lookup (snd c0) "inputs"%string = Some v ->
+  subst d (scope_map n d sc) (EInRef f) = subst d (scope_map n d sc) (EDot (EId "inputs"%string) f) /\
+  evalE release binop_impl apply c (subst d (scope_map n d sc) (EInRef f)) =
+    (fst (evalE release binop_impl apply c0 (EInRef f)), c).
+Proof.
+  intros release binop_impl apply n d sc f v c0 c Hsc Hem Hin. split.
+  - exact (proj2 (subst_inref n d sc f v Hsc)).
+  - exact (inref_emission_sound release binop_impl apply n d sc f v c0 c Hsc Hem Hin).
+Qed.
+Check C05_input_reference_emission : forall release binop_impl apply n d sc f v c0 c,
+  rec_get sc "inputs"%string = Some v -> emittable_gen v = true ->
+  lookup (snd c0) "inputs"%string = Some v ->
+  subst d (scope_map n d sc) (EInRef f) = subst d (scope_map n d sc) (EDot (EId "inputs"%string) f) /\
+  evalE release binop_impl apply c (subst d (scope_map n d sc) (EInRef f)) =
+    (fst (evalE release binop_impl apply c0 (EInRef f)), c).
+Print Assumptions C05_input_reference_emission.
+
+Theorem C05_input_reference_captures_inputs : forall fr f v,
+  lookup fr "inputs"%string = Some v -> capture fr (free_vars (EInRef f) []) [] = [("inputs"%string, v)].
+Proof. exact inref_captures_inputs. Qed.
+Check C05_input_reference_captures_inputs : forall fr f v,
+  lookup fr "inputs"%string = Some v -> capture fr (free_vars (EInRef f) []) [] = [("inputs"%string, v)].
+Print Assumptions C05_input_reference_captures_inputs.
+
+(* the witness of F54 end to end in the model: with inputs {rate: 2}, `x => x * #rate` captures inputs, is emitted
+   as (x) => x * {rate: 2}.rate, and the reloaded function applied to 3 in a program WITHOUT inputs gives 6
+   (as the original does); a parameter named `inputs` keeps its `#rate` *)
+Definition f54_inputs : value := VRec [("rate"%string, VNum (num_of_Z 2))].
+Definition f54_cfg : cfg := ([], [(FOwned, [("inputs"%string, f54_inputs)])]).
+Definition f54_lam : expr := ELam [AReq "x"%string] (EBin Multiply (EId "x"%string) (EInRef "rate"%string)).
+Example C05_F54_repaired :
+  let r := evalD true binop_impl builtin_impl 4 f54_cfg f54_lam in
+  match fst r with
+  | Ok fv =>
+      (match fv with VLam _ _ _ sc => sc | _ => [] end) = [("inputs"%string, f54_inputs)] /\
+      emit_ast true true fv =
+        Some (ELam [AReq "x"%string]
+                (EBin Multiply (EId "x"%string)
+                   (EDot (ERec [Cm [] (REntry (KStatic "rate"%string) (ENum (num_of_Z 2))) None]) "rate"%string))) /\
+      match emit_ast true true fv with
+      | Some e =>
+          match reload_ast 0%nat e with
+          | Some g =>
+              fst (evalD true binop_impl builtin_impl 4 ([None], [(FOwned, [("g"%string, g)])])
+                     (ECall (EId "g"%string) [ENum (num_of_Z 3)])) = Ok (VNum (num_of_Z 6)) /\
+              fst (evalD true binop_impl builtin_impl 4 (snd r)
+                     (ECall f54_lam [ENum (num_of_Z 3)])) = Ok (VNum (num_of_Z 6))
+          | None => False
+          end
+      | None => False
+      end
+  | _ => False
+  end /\
+  subst true [("inputs"%string, ENull)] (ELam [AReq "inputs"%string] (EInRef "rate"%string)) =
+    ELam [AReq "inputs"%string] (EInRef "rate"%string).
+Proof. vm_compute. repeat split. Qed.
